@@ -80,6 +80,16 @@ checks["C14"]=dict(
    note="Three of the six rules (key, grouping, choice guards) were written after independent seeded changes showed which structural facts the behaviour hinges on; they are exact-shape rules on languages/converter.go. NOT decided: that the printed expression compiles and rebuilds the object (two stages of execution away), default guards, value formatting.",
    technique="who-may-call rule on the generator + structural must-read / must-derive-from rules on the key, grouping and guard expressions + union-member consumption over the template ASTs",
    design="§3.C14")
+checks["C01"]=dict(
+   text="Generator-side necessary conditions for 'accepted documents decode and round-trip': the JSON key of a field is StructField.Name itself in the Go struct tag and in every key the strict / custom unmarshal templates look up; `omitempty` exactly for non-required fields; Required is set from the schema's own required list / optional marker in the three front-ends; every OpenAPI walker that builds a value type reads `nullable` (one genuine defect fixed: booleans, arrays, objects); integer → integer kind and number → float kind in the JSON-family front-ends; the union (un)marshal templates cover every field / mapping entry, return on the first branch that decodes and join the errors otherwise. Depends on C06 (optional ⇒ pointer) and C10 (numbers canonical).",
+   note="Everything that needs generated code to run against the schema language's own validator is NOT decided: decoding of concrete documents, order of union branches, date-time re-encoding, integer widths vs. ranges, property names needing escapes in struct tags.",
+   technique="exact-argument / exact-guard rules on the tag-writing call and the template key actions + sibling agreement of front-end walkers + traversal-completeness rules on the union templates",
+   design="§3.C01/C11")
+checks["C11"]=dict(
+   text="Generator-side necessary conditions for 'Python round-trips and agrees with Go on the wire': keys written by to_json and read by from_json are StructField.Name itself; to_json splits unconditional / `is not None` entries exactly on StructField.Required (the property that decides Go's omitempty); from_json reaches nested objects at every depth (shortcuts accept scalars only; struct references → from_json, arrays/maps → value type, unions → discriminator mapping); a nullable value is tested against None before a nested from_json (one finding: demonstrated by running the generated Python).",
+   note="NOT decided: behaviour of the generated Python on concrete documents, the runtime encoder, equality of the JSON produced by Go and Python, enum member naming.",
+   technique="exact-argument rules on the format strings that write JSON keys (key positions recognised between quotes) + sibling agreement with Go's omission rule + traversal-completeness of the from_json generator",
+   design="§3.C01/C11")
 checks["C04"]=dict(
    text="Eight structural clauses, each a necessary condition of 'never panics / never hangs' (a reported site is a potential crash; every site reported on the pinned tree was triaged: 33 fixed in /repo, 7 recorded as findings): bounded recursion and loops through references (visited set / depth bound / leaf-kind test; closures included), no explicit panic reachable from the pipeline entry points, no unchecked single-value type assertion on `any` values, no pointer lookup used with its found-flag discarded, guarded constant indexing at the JSON-family parser frontier, kind-guarded access to kind-specific members of collection elements, consistent key derivation on probed-and-filled sets.",
    note="Trusted: the AST-level call graph (static calls, class-hierarchy interface calls, func-typed fields by stored values; func literals attributed to their enclosing function); text/template recovers panics of template functions. NOT decided: nil dereference of Type.<Kind> accessors on non-element values, index out of range on IR slices and CUE values, stack depth on deeply nested acyclic input, time/space blow-up, panics inside third-party libraries.",
